@@ -201,6 +201,22 @@ func (e *Explorer) Explore(prefix string, shards int) (*Stats, error) {
 	return st, nil
 }
 
+// ExploreShard writes only shard `shard` of `shards` (process-level sharding for
+// drivers that own process-global state such as the virtual clock).
+func (e *Explorer) ExploreShard(prefix string, shard, shards int) (*Stats, error) {
+	file := fmt.Sprintf("%s.%d.ndjson", prefix, shard)
+	n, leaves, panics, sharedAnc, samples, err := e.exploreShard(file, shard, shards)
+	if err != nil {
+		return nil, err
+	}
+	st := &Stats{Files: []string{file}, PerShard: []int{n}, Leaves: leaves, Panics: panics, Samples: samples}
+	st.Nodes = n - sharedAnc
+	if shard == 0 {
+		st.Nodes = n
+	}
+	return st, nil
+}
+
 func (e *Explorer) exploreShard(file string, shard, shards int) (lines, leaves, panics, sharedAnc int, samples []string, err error) {
 	f, err := os.Create(file)
 	if err != nil {
